@@ -39,7 +39,7 @@ def kernel_case(draw):
             "seed": draw(st.integers(0, 2 ** 32 - 1)), "spread": draw(st.sampled_from([0.1, 1.0, 10.0])),
             "offset_pow2": draw(st.sampled_from([None, None, None, 8, 16, 24, 32, 40])),
             "points_dtype": draw(st.sampled_from(["float64", "float64", "float64", "float32"])),
-            "rescore_after_update": draw(st.booleans())}
+            "rescore_after_update": draw(st.booleans()), "points_on_means": draw(st.sampled_from([False, False, True]))}
 
 
 def build_kernel_inputs(case):
@@ -61,6 +61,10 @@ def build_kernel_inputs(case):
         off = 2.0 ** case["offset_pow2"]
         means = [off + rng.integers(-1024, 1025, size=nw) / 256.0 for _ in range(K)]
         pts = off + rng.integers(-1024, 1025, size=(T, nw)) / 256.0
+    if case.get("points_on_means"):
+        # windows that coincide exactly with a cluster's mean window (idle stretches, one-member clusters): distance exactly 0
+        for i in range(min(len(pts), K)):
+            pts[i] = means[i % K]
     if case.get("points_dtype") == "float32":
         pts = pts.astype(np.float32)              # the reference is computed from exactly these stored values
     return thetas, means, pts
@@ -131,6 +135,8 @@ def execute_kernel(case, t):
         t.cls("large_common_offset")
     if case.get("points_dtype") == "float32":
         t.cls("points_stored_as_float32")
+    if case.get("points_on_means"):
+        t.cls("points_exactly_on_a_mean")
     if big or nw >= 50:
         t.mark_nontrivial({"NW": nw, "logdets": [round(x, 1) for x in logdets], "kappa": [float(f"{k:.3g}") for k in kappas]})
 
@@ -205,7 +211,7 @@ SUBCHECKS = [
     SubCheck(name="likelihood_kernels_vs_textbook_density", strategy=kernel_case, execute=execute_kernel, pinned=_pinned_kernel,
              budget={"quick": 500, "thorough": 20000}, shards={"quick": 4, "thorough": 8}, modes=["jit", "nojit"],
              min_nontrivial_fraction=0.3),
-    SubCheck(name="end_to_end_tables_and_result_fields", strategy=lambda: gen.e2e_config(betas=(0.0, 0.5, 2.0, 10.0, 50.0), offsets=(0.0, 0.0, 1e3, 1e5, -1e6)),
+    SubCheck(name="end_to_end_tables_and_result_fields", strategy=lambda: gen.e2e_config(betas=(0.0, 0.5, 2.0, 10.0, 50.0), offsets=(0.0, 0.0, 1e3, 1e5, -1e6), scales=True, scale_prob=0.3),
              execute=execute_e2e, budget={"quick": 128, "thorough": 3000}, shards={"quick": 16, "thorough": 8}, modes=E2E_MODES,
              min_nontrivial_fraction=0.3),
 ]
